@@ -44,7 +44,7 @@ func main() {
 func run(tier string) int {
 	start := time.Now()
 	rep := imc.NewReporter(prop)
-	sc, permMode, budget := quickScope(), 1, 95*time.Second
+	sc, permMode, budget := quickScope(), 1, 105*time.Second
 	if tier == "thorough" {
 		sc, permMode, budget = thoroughScope(), 2, 17*time.Minute
 	}
